@@ -252,6 +252,13 @@ func (w *witness) ReadFrom(r io.Reader) (n int64, err error) {
 	}
 
 	n += m
+	if err == nil {
+		// the header comes from untrusted bytes and must describe the payload: Public() sizes
+		// its result with nbPublic, and the backends split the vector with these counts
+		if l := reflect.ValueOf(w.vector).Len(); uint64(w.nbPublic)+uint64(w.nbSecret) != uint64(l) {
+			return n, fmt.Errorf("invalid witness: header announces %d public and %d secret values, vector has %d", w.nbPublic, w.nbSecret, l)
+		}
+	}
 	return n, err
 }
 
